@@ -50,6 +50,8 @@ class StubSigner(object):
     def GetPublicKey(self):
         if self.pub_as_bytes == 'nonascii':
             return 'PUBKEY-%d jos\u00e9@b\u00fccherwurm \u9375' % self.kid      # a key comment outside ASCII, returned as text like the shipped signers do
+        if self.pub_as_bytes == 'empty':
+            return u''         # a key loaded without its public half (every such signer reports the same, empty, public key)
         pk = 'PUBKEY-%d user@host' % self.kid
         if self.pub_as_bytes == 'bytearray':
             # a signer that hands out the bytearray it stores (the library accepts bytes-like keys): the caller must not modify it
